@@ -210,10 +210,43 @@ class Exprs:
             elif k == "cindex":
                 e = ("cidx", e, -el["offset"] if el["from_end"] else el["offset"])
             elif k == "downcast":
-                e = ("downcast", e, el["variant"])
+                e = self._downcast(e, el["variant"])
             else:
                 e = ("opaque", "proj")
         return e
+
+    def _downcast(self, e, variant):
+        """`?`: `match Try::branch(r) { Continue(v) => v, Break(..) => return .. }` reads the Ok payload
+        of r.  A merged variable all of whose definitions are aggregate literals, downcast to variant V,
+        is the one literal built as V (a downcast to V can only read a value that was built as V)."""
+        x = e
+        if x[0] == "call" and x[1].endswith("as std::ops::Try>::branch") and len(x[2]) == 1 and variant == "Continue":
+            return self._downcast(x[2][0], "Ok" if "Result" in x[1] else "Some")
+        base = strip_refs(x)
+        if base[0] == "var" and len(base[2]) >= 2 and all(k == "whole" for _, k in base[2]) and base[1] not in self.keep:
+            lits = []
+            for dloc, _k in base[2]:
+                key = ("lit", base[1], dloc)
+                if key in self._busy:
+                    return ("downcast", e, variant)
+                self._busy.add(key)
+                try:
+                    de = strip_refs(self._def_expr(base[1], dloc))
+                finally:
+                    self._busy.discard(key)
+                # follow one plain copy of another merged variable (the return place of an inlined helper)
+                if de[0] == "var" and all(k2 == "whole" for _, k2 in de[2]):
+                    sub = [strip_refs(self._def_expr(de[1], d2)) for d2, _k2 in de[2]]
+                else:
+                    sub = [de]
+                for y in sub:
+                    if not (y[0] == "agg" and y[2]):
+                        return ("downcast", e, variant)
+                    lits.append(y)
+            hit = [y for y in lits if y[2] == variant]
+            if len(hit) == 1:
+                return ("downcast", hit[0], variant)
+        return ("downcast", e, variant)
 
     def _field(self, e, el):
         name = el["name"]
